@@ -45,7 +45,6 @@ BaseObj(kind, sel, osh, sd) ==     \* sel: pool indices per axis
 Leaf(kind, sel, osh, sd) == [op |-> "obj", obj |-> BaseObj(kind, sel, osh, sd)]
 
 -------------------------------------------------------------------------------
-(* recipes: see GeoFunc!Build *)
 -------------------------------------------------------------------------------
 (* grids: per axis a subset of the sample points (breakpoints, quarter points, mid points) of the knot vector *)
 AxisGrid(kv, den, mode, a) ==
@@ -58,13 +57,8 @@ AxisGrid(kv, den, mode, a) ==
   IN Tab(Len(ix), LAMBDA j : Div(sp[ix[j]], R(den)))
 GridFor(G, mode) == Tab(SDim(G), LAMBDA a : AxisGrid(G.kvs[a], G.dens[a], mode, a))
 
-ZeroSheetOK(S) == TRUE
-SeqAll(s, P(_)) == \A i \in 1..Len(s) : P(s[i])
-
 -------------------------------------------------------------------------------
 (* (a) declarative meaning of the top-level operation, stated on sheets *)
-SameVals(X, Y) == X = Y
-
 \* derivative spline of a B-spline function w.r.t. axis ax (1-based): degree p-1, coefficients p (C_{i+1}-C_i)/(t_{i+p+1}-t_{i+1})
 DiffObj(G, ax) ==
   LET kv  == G.kvs[ax]   p == G.ps[ax]   den == G.dens[ax]
@@ -357,10 +351,10 @@ CtorCases ==
                 [op |-> "identity", ext |-> << <<Zero, One>>, <<One, R(3)>>, <<R(2), Q(5, 2)>> >>, askv |-> FALSE],
                 [op |-> "identity", ext |-> << <<R(-2), R(-1)>>, <<Zero, R(3)>>, <<One, R(2)>> >>, askv |-> TRUE] >>
       radii == << One, R(2), Q(3, 2) >>
-      arcs == FlattenSeq(Tab(3, LAMBDA m : FlattenSeq(Tab(Len(PythCS), LAMBDA k : Tab(Len(radii), LAMBDA q :
+      arcs == FlattenSeq(Tab(3, LAMBDA m : FlattenSeq(Tab(IF m = 3 THEN 2 ELSE Len(PythCS), LAMBDA k : Tab(Len(radii), LAMBDA q :
                    [op |-> "arc", m |-> m, cs |-> PythCS[k], r |-> radii[q], auto |-> (m # 2 /\ q = 2)])))))
       rs == lines \o cubes \o ids \o arcs
-  IN Tab(Len(rs), LAMBDA i : [recipe |-> rs[i], gm |-> "x", md |-> IF rs[i].op = "arc" /\ rs[i].m = 3 THEN 1 ELSE 2])
+  IN Tab(Len(rs), LAMBDA i : [recipe |-> rs[i], gm |-> "x", md |-> IF rs[i].op = "arc" /\ (rs[i].m = 3 \/ (rs[i].m = 2 /\ rs[i].cs[1][2] > 5)) THEN 1 ELSE 2])
 
 Cases == CASE Fam = "base"   -> BaseCases
            [] Fam = "unary"  -> UnaryCases
